@@ -1,6 +1,7 @@
 package multiparty
 
 import (
+	"fmt"
 	"io"
 	"slices"
 
@@ -272,7 +273,17 @@ func (ekg RelinearizationKeyGenProtocol) GenShareRoundTwo(ephSk, sk *rlwe.Secret
 }
 
 // AggregateShares combines two RelinearizationKeyGen shares into a single one.
-func (ekg RelinearizationKeyGenProtocol) AggregateShares(share1, share2 RelinearizationKeyGenShare, shareOut *RelinearizationKeyGenShare) {
+// The method returns an error if share1, share2 and shareOut do not have the same degree (round),
+// LevelQ, LevelP and BaseTwoDecomposition.
+func (ekg RelinearizationKeyGenProtocol) AggregateShares(share1, share2 RelinearizationKeyGenShare, shareOut *RelinearizationKeyGenShare) (err error) {
+
+	if err = checkGadgetCiphertextsMatch("AggregateShares: share", &share1.GadgetCiphertext, &share2.GadgetCiphertext, &shareOut.GadgetCiphertext); err != nil {
+		return
+	}
+
+	if share1.Degree() != share2.Degree() || share1.Degree() != shareOut.Degree() {
+		return fmt.Errorf("cannot AggregateShares: share degrees (rounds) do not match")
+	}
 
 	levelQ := share1.LevelQ()
 	levelP := share1.LevelP()
@@ -289,6 +300,37 @@ func (ekg RelinearizationKeyGenProtocol) AggregateShares(share1, share2 Relinear
 			}
 		}
 	}
+
+	return
+}
+
+// checkGadgetCiphertextsMatch returns an error if the gadget ciphertexts do not all have the same
+// LevelQ, LevelP, BaseTwoDecomposition and number of digits per RNS component.
+func checkGadgetCiphertextsMatch(op string, cts ...*rlwe.GadgetCiphertext) (err error) {
+
+	for _, ct := range cts {
+		if len(ct.Value) == 0 || len(ct.Value[0]) == 0 || len(ct.Value[0][0]) == 0 {
+			return fmt.Errorf("cannot %s is empty", op)
+		}
+	}
+
+	for _, ct := range cts[1:] {
+
+		if cts[0].LevelQ() != ct.LevelQ() {
+			return fmt.Errorf("cannot %s LevelQ do not match", op)
+		}
+
+		if cts[0].LevelP() != ct.LevelP() {
+			return fmt.Errorf("cannot %s LevelP do not match", op)
+		}
+
+		if cts[0].BaseTwoDecomposition != ct.BaseTwoDecomposition ||
+			!slices.Equal(cts[0].BaseTwoDecompositionVectorSize(), ct.BaseTwoDecompositionVectorSize()) {
+			return fmt.Errorf("cannot %s BaseTwoDecomposition do not match", op)
+		}
+	}
+
+	return
 }
 
 // GenRelinearizationKey computes the generated RLK from the public shares and write the result in evalKeyOut.
@@ -296,7 +338,18 @@ func (ekg RelinearizationKeyGenProtocol) AggregateShares(share1, share2 Relinear
 //   - round1 = [-ua + sP + e0, sa + e1]
 //   - round2 = sum([s_i * {-ua + sP + e0} + (u_i - s_i) * {sa + e1} + e_i2]) = [-sua + Ps^2 + se0 + e2, sua + ue1 - s^2a -se1]
 //   - [round2[0] + round2[1], round1[1]] = [-{s^2a + se1} + Ps^2 + {se0 + ue1 + e2}, sa + e1] = [sb + Ps^2 + e, b]
-func (ekg RelinearizationKeyGenProtocol) GenRelinearizationKey(round1 RelinearizationKeyGenShare, round2 RelinearizationKeyGenShare, evalKeyOut *rlwe.RelinearizationKey) {
+//
+// The method returns an error if round1, round2 and evalKeyOut do not have the same LevelQ, LevelP
+// and BaseTwoDecomposition.
+func (ekg RelinearizationKeyGenProtocol) GenRelinearizationKey(round1 RelinearizationKeyGenShare, round2 RelinearizationKeyGenShare, evalKeyOut *rlwe.RelinearizationKey) (err error) {
+
+	if err = checkGadgetCiphertextsMatch("GenRelinearizationKey: round1, round2 and evalKeyOut", &round1.GadgetCiphertext, &round2.GadgetCiphertext, &evalKeyOut.GadgetCiphertext); err != nil {
+		return
+	}
+
+	if round1.Degree() != 1 || round2.Degree() != 0 || evalKeyOut.Degree() != 1 {
+		return fmt.Errorf("cannot GenRelinearizationKey: round1 must be of degree 1, round2 of degree 0 and evalKeyOut of degree 1 (uncompressed)")
+	}
 
 	levelQ := round1.LevelQ()
 	levelP := round1.LevelP()
@@ -311,6 +364,8 @@ func (ekg RelinearizationKeyGenProtocol) GenRelinearizationKey(round1 Relineariz
 			ringQP.MForm(round1.Value[i][j][1], evalKeyOut.Value[i][j][1])
 		}
 	}
+
+	return
 }
 
 // AllocateShare allocates the share of the EKG protocol.
